@@ -1595,6 +1595,145 @@ package jmespath
 //@   ensures specJSONVal(arrAt(v, i))
 //@   trigger specJSONVal(arrAt(v, i))
 
+// ---- BEGIN SIGNATURES (generated by /verif/tools/mksiglemma.py from its own table) ----
+//@ lemma the-signature-of-abs-is-the-specified-one
+//@   props C09,C10
+//@   ensures mapHas(theFunctionTable(), "abs") && len(theFunctionTable()["abs"].arguments) == 1 && !theFunctionTable()["abs"].hasExpRef && !theFunctionTable()["abs"].arguments[0].variadic && len(theFunctionTable()["abs"].arguments[0].types) == 1 && (theFunctionTable()["abs"].arguments[0].types[0] == "number")
+//@   checkonly
+
+//@ lemma the-signature-of-avg-is-the-specified-one
+//@   props C09,C10
+//@   ensures mapHas(theFunctionTable(), "avg") && len(theFunctionTable()["avg"].arguments) == 1 && !theFunctionTable()["avg"].hasExpRef && !theFunctionTable()["avg"].arguments[0].variadic && len(theFunctionTable()["avg"].arguments[0].types) == 1 && (theFunctionTable()["avg"].arguments[0].types[0] == "array[number]")
+//@   checkonly
+
+//@ lemma the-signature-of-ceil-is-the-specified-one
+//@   props C09,C10
+//@   ensures mapHas(theFunctionTable(), "ceil") && len(theFunctionTable()["ceil"].arguments) == 1 && !theFunctionTable()["ceil"].hasExpRef && !theFunctionTable()["ceil"].arguments[0].variadic && len(theFunctionTable()["ceil"].arguments[0].types) == 1 && (theFunctionTable()["ceil"].arguments[0].types[0] == "number")
+//@   checkonly
+
+//@ lemma the-signature-of-contains-is-the-specified-one
+//@   props C09,C10
+//@   ensures mapHas(theFunctionTable(), "contains") && len(theFunctionTable()["contains"].arguments) == 2 && !theFunctionTable()["contains"].hasExpRef && !theFunctionTable()["contains"].arguments[0].variadic && len(theFunctionTable()["contains"].arguments[0].types) == 2 && (theFunctionTable()["contains"].arguments[0].types[0] == "array" || theFunctionTable()["contains"].arguments[0].types[1] == "array") && (theFunctionTable()["contains"].arguments[0].types[0] == "string" || theFunctionTable()["contains"].arguments[0].types[1] == "string") && !theFunctionTable()["contains"].arguments[1].variadic && len(theFunctionTable()["contains"].arguments[1].types) == 1 && (theFunctionTable()["contains"].arguments[1].types[0] == "any")
+//@   checkonly
+
+//@ lemma the-signature-of-ends-with-is-the-specified-one
+//@   props C09,C10
+//@   ensures mapHas(theFunctionTable(), "ends_with") && len(theFunctionTable()["ends_with"].arguments) == 2 && !theFunctionTable()["ends_with"].hasExpRef && !theFunctionTable()["ends_with"].arguments[0].variadic && len(theFunctionTable()["ends_with"].arguments[0].types) == 1 && (theFunctionTable()["ends_with"].arguments[0].types[0] == "string") && !theFunctionTable()["ends_with"].arguments[1].variadic && len(theFunctionTable()["ends_with"].arguments[1].types) == 1 && (theFunctionTable()["ends_with"].arguments[1].types[0] == "string")
+//@   checkonly
+
+//@ lemma the-signature-of-floor-is-the-specified-one
+//@   props C09,C10
+//@   ensures mapHas(theFunctionTable(), "floor") && len(theFunctionTable()["floor"].arguments) == 1 && !theFunctionTable()["floor"].hasExpRef && !theFunctionTable()["floor"].arguments[0].variadic && len(theFunctionTable()["floor"].arguments[0].types) == 1 && (theFunctionTable()["floor"].arguments[0].types[0] == "number")
+//@   checkonly
+
+//@ lemma the-signature-of-join-is-the-specified-one
+//@   props C09,C10
+//@   ensures mapHas(theFunctionTable(), "join") && len(theFunctionTable()["join"].arguments) == 2 && !theFunctionTable()["join"].hasExpRef && !theFunctionTable()["join"].arguments[0].variadic && len(theFunctionTable()["join"].arguments[0].types) == 1 && (theFunctionTable()["join"].arguments[0].types[0] == "string") && !theFunctionTable()["join"].arguments[1].variadic && len(theFunctionTable()["join"].arguments[1].types) == 1 && (theFunctionTable()["join"].arguments[1].types[0] == "array[string]")
+//@   checkonly
+
+//@ lemma the-signature-of-keys-is-the-specified-one
+//@   props C09,C10
+//@   ensures mapHas(theFunctionTable(), "keys") && len(theFunctionTable()["keys"].arguments) == 1 && !theFunctionTable()["keys"].hasExpRef && !theFunctionTable()["keys"].arguments[0].variadic && len(theFunctionTable()["keys"].arguments[0].types) == 1 && (theFunctionTable()["keys"].arguments[0].types[0] == "object")
+//@   checkonly
+
+//@ lemma the-signature-of-length-is-the-specified-one
+//@   props C09,C10
+//@   ensures mapHas(theFunctionTable(), "length") && len(theFunctionTable()["length"].arguments) == 1 && !theFunctionTable()["length"].hasExpRef && !theFunctionTable()["length"].arguments[0].variadic && len(theFunctionTable()["length"].arguments[0].types) == 3 && (theFunctionTable()["length"].arguments[0].types[0] == "string" || theFunctionTable()["length"].arguments[0].types[1] == "string" || theFunctionTable()["length"].arguments[0].types[2] == "string") && (theFunctionTable()["length"].arguments[0].types[0] == "array" || theFunctionTable()["length"].arguments[0].types[1] == "array" || theFunctionTable()["length"].arguments[0].types[2] == "array") && (theFunctionTable()["length"].arguments[0].types[0] == "object" || theFunctionTable()["length"].arguments[0].types[1] == "object" || theFunctionTable()["length"].arguments[0].types[2] == "object")
+//@   checkonly
+
+//@ lemma the-signature-of-map-is-the-specified-one
+//@   props C09,C10
+//@   ensures mapHas(theFunctionTable(), "map") && len(theFunctionTable()["map"].arguments) == 2 && theFunctionTable()["map"].hasExpRef && !theFunctionTable()["map"].arguments[0].variadic && len(theFunctionTable()["map"].arguments[0].types) == 1 && (theFunctionTable()["map"].arguments[0].types[0] == "expref") && !theFunctionTable()["map"].arguments[1].variadic && len(theFunctionTable()["map"].arguments[1].types) == 1 && (theFunctionTable()["map"].arguments[1].types[0] == "array")
+//@   checkonly
+
+//@ lemma the-signature-of-max-is-the-specified-one
+//@   props C09,C10
+//@   ensures mapHas(theFunctionTable(), "max") && len(theFunctionTable()["max"].arguments) == 1 && !theFunctionTable()["max"].hasExpRef && !theFunctionTable()["max"].arguments[0].variadic && len(theFunctionTable()["max"].arguments[0].types) == 2 && (theFunctionTable()["max"].arguments[0].types[0] == "array[number]" || theFunctionTable()["max"].arguments[0].types[1] == "array[number]") && (theFunctionTable()["max"].arguments[0].types[0] == "array[string]" || theFunctionTable()["max"].arguments[0].types[1] == "array[string]")
+//@   checkonly
+
+//@ lemma the-signature-of-max-by-is-the-specified-one
+//@   props C09,C10
+//@   ensures mapHas(theFunctionTable(), "max_by") && len(theFunctionTable()["max_by"].arguments) == 2 && theFunctionTable()["max_by"].hasExpRef && !theFunctionTable()["max_by"].arguments[0].variadic && len(theFunctionTable()["max_by"].arguments[0].types) == 1 && (theFunctionTable()["max_by"].arguments[0].types[0] == "array") && !theFunctionTable()["max_by"].arguments[1].variadic && len(theFunctionTable()["max_by"].arguments[1].types) == 1 && (theFunctionTable()["max_by"].arguments[1].types[0] == "expref")
+//@   checkonly
+
+//@ lemma the-signature-of-merge-is-the-specified-one
+//@   props C09,C10
+//@   ensures mapHas(theFunctionTable(), "merge") && len(theFunctionTable()["merge"].arguments) == 1 && !theFunctionTable()["merge"].hasExpRef && theFunctionTable()["merge"].arguments[0].variadic && len(theFunctionTable()["merge"].arguments[0].types) == 1 && (theFunctionTable()["merge"].arguments[0].types[0] == "object")
+//@   checkonly
+
+//@ lemma the-signature-of-min-is-the-specified-one
+//@   props C09,C10
+//@   ensures mapHas(theFunctionTable(), "min") && len(theFunctionTable()["min"].arguments) == 1 && !theFunctionTable()["min"].hasExpRef && !theFunctionTable()["min"].arguments[0].variadic && len(theFunctionTable()["min"].arguments[0].types) == 2 && (theFunctionTable()["min"].arguments[0].types[0] == "array[number]" || theFunctionTable()["min"].arguments[0].types[1] == "array[number]") && (theFunctionTable()["min"].arguments[0].types[0] == "array[string]" || theFunctionTable()["min"].arguments[0].types[1] == "array[string]")
+//@   checkonly
+
+//@ lemma the-signature-of-min-by-is-the-specified-one
+//@   props C09,C10
+//@   ensures mapHas(theFunctionTable(), "min_by") && len(theFunctionTable()["min_by"].arguments) == 2 && theFunctionTable()["min_by"].hasExpRef && !theFunctionTable()["min_by"].arguments[0].variadic && len(theFunctionTable()["min_by"].arguments[0].types) == 1 && (theFunctionTable()["min_by"].arguments[0].types[0] == "array") && !theFunctionTable()["min_by"].arguments[1].variadic && len(theFunctionTable()["min_by"].arguments[1].types) == 1 && (theFunctionTable()["min_by"].arguments[1].types[0] == "expref")
+//@   checkonly
+
+//@ lemma the-signature-of-not-null-is-the-specified-one
+//@   props C09,C10
+//@   ensures mapHas(theFunctionTable(), "not_null") && len(theFunctionTable()["not_null"].arguments) == 1 && !theFunctionTable()["not_null"].hasExpRef && theFunctionTable()["not_null"].arguments[0].variadic && len(theFunctionTable()["not_null"].arguments[0].types) == 1 && (theFunctionTable()["not_null"].arguments[0].types[0] == "any")
+//@   checkonly
+
+//@ lemma the-signature-of-reverse-is-the-specified-one
+//@   props C09,C10
+//@   ensures mapHas(theFunctionTable(), "reverse") && len(theFunctionTable()["reverse"].arguments) == 1 && !theFunctionTable()["reverse"].hasExpRef && !theFunctionTable()["reverse"].arguments[0].variadic && len(theFunctionTable()["reverse"].arguments[0].types) == 2 && (theFunctionTable()["reverse"].arguments[0].types[0] == "array" || theFunctionTable()["reverse"].arguments[0].types[1] == "array") && (theFunctionTable()["reverse"].arguments[0].types[0] == "string" || theFunctionTable()["reverse"].arguments[0].types[1] == "string")
+//@   checkonly
+
+//@ lemma the-signature-of-sort-is-the-specified-one
+//@   props C09,C10
+//@   ensures mapHas(theFunctionTable(), "sort") && len(theFunctionTable()["sort"].arguments) == 1 && !theFunctionTable()["sort"].hasExpRef && !theFunctionTable()["sort"].arguments[0].variadic && len(theFunctionTable()["sort"].arguments[0].types) == 2 && (theFunctionTable()["sort"].arguments[0].types[0] == "array[string]" || theFunctionTable()["sort"].arguments[0].types[1] == "array[string]") && (theFunctionTable()["sort"].arguments[0].types[0] == "array[number]" || theFunctionTable()["sort"].arguments[0].types[1] == "array[number]")
+//@   checkonly
+
+//@ lemma the-signature-of-sort-by-is-the-specified-one
+//@   props C09,C10
+//@   ensures mapHas(theFunctionTable(), "sort_by") && len(theFunctionTable()["sort_by"].arguments) == 2 && theFunctionTable()["sort_by"].hasExpRef && !theFunctionTable()["sort_by"].arguments[0].variadic && len(theFunctionTable()["sort_by"].arguments[0].types) == 1 && (theFunctionTable()["sort_by"].arguments[0].types[0] == "array") && !theFunctionTable()["sort_by"].arguments[1].variadic && len(theFunctionTable()["sort_by"].arguments[1].types) == 1 && (theFunctionTable()["sort_by"].arguments[1].types[0] == "expref")
+//@   checkonly
+
+//@ lemma the-signature-of-starts-with-is-the-specified-one
+//@   props C09,C10
+//@   ensures mapHas(theFunctionTable(), "starts_with") && len(theFunctionTable()["starts_with"].arguments) == 2 && !theFunctionTable()["starts_with"].hasExpRef && !theFunctionTable()["starts_with"].arguments[0].variadic && len(theFunctionTable()["starts_with"].arguments[0].types) == 1 && (theFunctionTable()["starts_with"].arguments[0].types[0] == "string") && !theFunctionTable()["starts_with"].arguments[1].variadic && len(theFunctionTable()["starts_with"].arguments[1].types) == 1 && (theFunctionTable()["starts_with"].arguments[1].types[0] == "string")
+//@   checkonly
+
+//@ lemma the-signature-of-sum-is-the-specified-one
+//@   props C09,C10
+//@   ensures mapHas(theFunctionTable(), "sum") && len(theFunctionTable()["sum"].arguments) == 1 && !theFunctionTable()["sum"].hasExpRef && !theFunctionTable()["sum"].arguments[0].variadic && len(theFunctionTable()["sum"].arguments[0].types) == 1 && (theFunctionTable()["sum"].arguments[0].types[0] == "array[number]")
+//@   checkonly
+
+//@ lemma the-signature-of-to-array-is-the-specified-one
+//@   props C09,C10
+//@   ensures mapHas(theFunctionTable(), "to_array") && len(theFunctionTable()["to_array"].arguments) == 1 && !theFunctionTable()["to_array"].hasExpRef && !theFunctionTable()["to_array"].arguments[0].variadic && len(theFunctionTable()["to_array"].arguments[0].types) == 1 && (theFunctionTable()["to_array"].arguments[0].types[0] == "any")
+//@   checkonly
+
+//@ lemma the-signature-of-to-number-is-the-specified-one
+//@   props C09,C10
+//@   ensures mapHas(theFunctionTable(), "to_number") && len(theFunctionTable()["to_number"].arguments) == 1 && !theFunctionTable()["to_number"].hasExpRef && !theFunctionTable()["to_number"].arguments[0].variadic && len(theFunctionTable()["to_number"].arguments[0].types) == 1 && (theFunctionTable()["to_number"].arguments[0].types[0] == "any")
+//@   checkonly
+
+//@ lemma the-signature-of-to-string-is-the-specified-one
+//@   props C09,C10
+//@   ensures mapHas(theFunctionTable(), "to_string") && len(theFunctionTable()["to_string"].arguments) == 1 && !theFunctionTable()["to_string"].hasExpRef && !theFunctionTable()["to_string"].arguments[0].variadic && len(theFunctionTable()["to_string"].arguments[0].types) == 1 && (theFunctionTable()["to_string"].arguments[0].types[0] == "any")
+//@   checkonly
+
+//@ lemma the-signature-of-type-is-the-specified-one
+//@   props C09,C10
+//@   ensures mapHas(theFunctionTable(), "type") && len(theFunctionTable()["type"].arguments) == 1 && !theFunctionTable()["type"].hasExpRef && !theFunctionTable()["type"].arguments[0].variadic && len(theFunctionTable()["type"].arguments[0].types) == 1 && (theFunctionTable()["type"].arguments[0].types[0] == "any")
+//@   checkonly
+
+//@ lemma the-signature-of-values-is-the-specified-one
+//@   props C09,C10
+//@   ensures mapHas(theFunctionTable(), "values") && len(theFunctionTable()["values"].arguments) == 1 && !theFunctionTable()["values"].hasExpRef && !theFunctionTable()["values"].arguments[0].variadic && len(theFunctionTable()["values"].arguments[0].types) == 1 && (theFunctionTable()["values"].arguments[0].types[0] == "object")
+//@   checkonly
+
+//@ lemma the-function-table-has-exactly-the-26-specified-functions
+//@   props C09,C10
+//@   var k string
+//@   ensures mapHas(theFunctionTable(), k) ==> (k == "abs" || k == "avg" || k == "ceil" || k == "contains" || k == "ends_with" || k == "floor" || k == "join" || k == "keys" || k == "length" || k == "map" || k == "max" || k == "max_by" || k == "merge" || k == "min" || k == "min_by" || k == "not_null" || k == "reverse" || k == "sort" || k == "sort_by" || k == "starts_with" || k == "sum" || k == "to_array" || k == "to_number" || k == "to_string" || k == "type" || k == "values")
+//@   checkonly
+
+// ---- END SIGNATURES ----
+
 //@ lemma binding-powers-are-the-specified-precedences
 //@   props C03,C04,C02,C15
 //@   var t int
